@@ -77,3 +77,13 @@ Definition adv_1pu_jwe (c : cfg) (a : kwalg) (m claimed actual : N) (rcpts : lis
   let wk r := Wrap (kek_1pu a (dh (rn_eph rn) r) (dh actual r) (t_kref (kref_for (style_of c) claimed))
                             (apv_1pu (map (kref_for (style_of c)) rcpts)) (j_tag j)) (cek_of rn) in
   set_recs (map (fun rr => mkrcp (r_hdr (fst rr)) (wk (snd rr))) (combine (j_recs j) rcpts)) j.
+
+(* a complete ECDH-1PU JWE hand-built by someone who holds the static key [actual]: skid names key [skidk], the
+   apu header (an input of the KDF) names key [apuk] *)
+Definition adv_1pu_jwe2 (c : cfg) (a : kwalg) (m skidk apuk actual : N) (rcpts : list N) (rn : rnd) : jwe :=
+  let st := style_of c in
+  let j0 := pack_jwe_auth c a m skidk rcpts rn in
+  let apu := t_kref (kref_for st apuk) in
+  let j1 := reenc_jwe (cek_of rn) m (set_prot (Some (p_set_apu (Some apu) (P (WJwe j0)))) j0) in
+  let wk r := Wrap (kek_1pu a (dh (rn_eph rn) r) (dh actual r) apu (apv_1pu (map (kref_for st) rcpts)) (j_tag j1)) (cek_of rn) in
+  set_recs (map (fun rr => mkrcp (r_hdr (fst rr)) (wk (snd rr))) (combine (j_recs j0) rcpts)) j1.
